@@ -144,6 +144,11 @@ pub trait Value: Clone + 'static {
     fn has_nonfinite(&self) -> bool {
         false
     }
+    /// True when every float inside survives a serde_json text round trip bit-exactly
+    /// (finite; the text format cannot carry NaN or infinities).
+    fn json_safe(&self) -> bool {
+        !self.has_nonfinite()
+    }
     /// Equality by the owned type's own `PartialEq` (NaN != NaN), as CollapseSequence sees it.
     fn peq(&self, o: &Self) -> bool {
         self.beq(o)
